@@ -329,7 +329,10 @@ func (t *threadSafeList[T]) Init() List[T] {
 	t.mutex.Lock()
 	defer t.mutex.Unlock()
 
-	return t.list.Init()
+	t.list.Init()
+
+	// return the thread-safe list itself (container/list returns its receiver), not the unsynchronized inner list
+	return t
 }
 
 // Front returns the first element of the List or nil if it is empty.
